@@ -22,16 +22,26 @@ import (
 type vc01Req struct {
 	seq     uint64 // concrete identity (position in the script)
 	payload uint64 // symbolic content
+	empty   bool   // encoded as a zero-length body (an empty pdata payload in protobuf); at most one per run
 }
+
+// vc01EmptySeq is the identity of the run's zero-length-encoded request (its body cannot carry one).
+var vc01EmptySeq uint64
 
 type vc01Enc struct{}
 
 func (vc01Enc) Marshal(r vc01Req) ([]byte, error) {
+	if r.empty {
+		return []byte{}, nil
+	}
 	b := binary.LittleEndian.AppendUint64(nil, r.seq)
 	return binary.LittleEndian.AppendUint64(b, r.payload), nil
 }
 
 func (vc01Enc) Unmarshal(b []byte) (vc01Req, error) {
+	if len(b) == 0 && vc01EmptySeq != 0 {
+		return vc01Req{seq: vc01EmptySeq, empty: true}, nil
+	}
 	if len(b) != 16 {
 		return vc01Req{}, errors.New("corrupt request")
 	}
@@ -67,7 +77,7 @@ func (s *vc01Store) Get(_ context.Context, key string) ([]byte, error) {
 
 func (s *vc01Store) Set(_ context.Context, key string, value []byte) error {
 	s.step()
-	s.m[key] = append([]byte(nil), value...)
+	s.m[key] = append([]byte{}, value...) // a stored empty value is present, not nil
 	return nil
 }
 
@@ -84,7 +94,7 @@ func (s *vc01Store) Batch(_ context.Context, ops ...*storage.Operation) error {
 		case storage.Get:
 			op.Value = s.m[op.Key]
 		case storage.Set:
-			s.m[op.Key] = append([]byte(nil), op.Value...)
+			s.m[op.Key] = append([]byte{}, op.Value...)
 		case storage.Delete:
 			delete(s.m, op.Key)
 		}
@@ -206,6 +216,7 @@ func VerifC01Crash() {
 	st := &vc01Store{m: map[string][]byte{}}
 	led := &vc01Ledger{accepted: map[uint64]uint64{}, handed: map[uint64]int{}, final: map[uint64]int{}}
 	vc01Led = led
+	vc01EmptySeq = 0
 	step := 0
 	nextSeq := uint64(1)
 	for inc := 0; inc <= crashes && step < L; inc++ {
@@ -221,6 +232,10 @@ func VerifC01Crash() {
 				// initial state: a few requests already offered (not counted in L)
 				for i := 0; i < pre; i++ {
 					r := vc01Req{seq: nextSeq, payload: vNondetUint64("payload")}
+					if i == 0 && vParam("empty") == 1 {
+						r = vc01Req{seq: nextSeq, empty: true}
+						vc01EmptySeq = r.seq
+					}
 					nextSeq++
 					if q.Offer(context.Background(), r) == nil {
 						led.accepted[r.seq] = r.payload
